@@ -157,6 +157,13 @@ class NpProxy:
             return sp.exp(x)
         return _np.vectorize(sp.exp, otypes=[object])(_obj(x))
 
+    def asarray(self, x, dtype=None, **kw):
+        a = _np.asarray(x)
+        if a.dtype == object:
+            OVERRIDES_USED.add('np.asarray(x, dtype=float) -> value-preserving on symbolic (object) arrays')
+            return a
+        return _np.asarray(x, dtype=dtype, **kw)
+
     def array(self, x, dtype=None, **kw):
         a = _np.array(x, **kw) if dtype is None else _np.array(x, dtype=dtype, **kw)
         return a
